@@ -495,9 +495,17 @@ func (ctx *RenderContext) Clone() *RenderContext {
 		newCtx.blocks[name] = nodes
 	}
 
-	// Copy macros by reference (no need to deep copy)
+	// Copy macros by reference (no need to deep copy), with what is known about
+	// the libraries they were imported from
 	for name, macro := range ctx.macros {
 		newCtx.macros[name] = macro
+	}
+	newCtx.macroLibs = nil
+	for name, lib := range ctx.macroLibs {
+		if newCtx.macroLibs == nil {
+			newCtx.macroLibs = make(map[string]map[string]Node, len(ctx.macroLibs))
+		}
+		newCtx.macroLibs[name] = lib
 	}
 
 	vpool("ready", "ctx", newCtx, len(newCtx.context)+vflag(newCtx.sandboxed != ctx.sandboxed || newCtx.parent != ctx || newCtx.extending))
